@@ -9,7 +9,7 @@ TIER=quick
 if [ "${1:-}" = "--tier" ]; then TIER=$2; shift 2; fi
 ID=$$
 WT=/tmp/mut_wt_$ID; WS=/tmp/mut_ws_$ID; TG=/tmp/mut_tg
-cleanup() { git -C /repo worktree remove --force $WT 2>/dev/null; rm -rf $WT $WS /tmp/mut_ev_$ID; }
+cleanup() { git -C /repo worktree remove --force $WT 2>/dev/null; rm -rf $WT $WS /tmp/mut_ev_$ID /tmp/vh_mutrel_$ID; }
 trap cleanup EXIT
 git -C /repo worktree add -q --detach $WT HEAD || exit 2
 (cd $WT && git apply "$PATCH") || { echo "patch does not apply"; exit 9; }
@@ -19,6 +19,10 @@ sed -i "s#path = \"/repo\"#path = \"$WT\"#" $WS/typecheck/Cargo.toml
 export RUSTFLAGS="--cfg arc_swap_verif" CARGO_NET_OFFLINE=true
 (cd $WS/harness && CARGO_TARGET_DIR=$TG/small cargo build --release --offline --features small 2>&1 | grep -E "^error" -A8)
 SHIP=()
+case " $* " in *" C02 "*|*" C05 "*|*" C10 "*|*" C14 "*)
+  (cd $WS/harness && CARGO_PROFILE_RELEASE_DEBUG_ASSERTIONS=false CARGO_PROFILE_RELEASE_OVERFLOW_CHECKS=false CARGO_TARGET_DIR=$TG/rel cargo build --release --offline --features small 2>&1 | grep -E "^error" -A8)
+  cp $TG/rel/release/vh /tmp/vh_mutrel_$ID; SHIP+=(--rel-bin /tmp/vh_mutrel_$ID) ;;
+esac
 if [ "$TIER" = thorough ]; then (cd $WS/harness && CARGO_TARGET_DIR=$TG/ship cargo build --release --offline 2>&1 | grep -E "^error" -A8); SHIP=(--ship-bin $TG/ship/release/vh); fi
 for P in "$@"; do
   EXTRA=()
